@@ -18,15 +18,15 @@ CHECKS = {
  "C02": ("E1", "3 (C02)", "for every program/input/focus/context of the bounded space the probe stream equals the binding history logged by an independently generated twin", "the twin generator (pv/gen/twin.py) is the reference for what a binding is; twin==plain is re-checked on every case"),
  "C03": ("E2", "3 (C03), 2.2 (E2, RSS)", "for every ordered labelled call tree up to the node bound and every chain/sibling selector up to the depth bound the probe stream equals the reference selector semantics: one event per embedding of the chain into the live stack per focus binding, context values from exactly the matched activations", "RSS (pv/models/rss.py) is the reference; it carries its own hand-checked conformance fixture; selectors enumerated up to renaming of the three identical functions"),
  "C04": ("E1", "3 (C04)", "for every program/input/focus of the bounded space and every listed stack of overriding and plain handlers the overridden run equals the substituted twin (result, effect log, argument state) and plain probes see the substituted values; closure variables raise OverrideException", "the substituted twin is the reference; subscript stores cannot be selected; what an overriding probe's own pipeline sees is not asserted"),
- "C05": ("E3", "3 (C05), 2.2 (E3)", "explicit-state search over every history up to the depth bound of activations/deactivations (any order), with-blocks (LIFO, normal and exceptional exit), refused activations and calls, replayed on the real API: every active probe receives exactly the model's events, inactive ones none; counters, installed code, handler collection, module globals and global_probes are clean whenever the model says so", "states are merged on a canonical key of the implementation state (audited in the thorough tier); error states are not expanded"),
+ "C05": ("E3", "3 (C05), 2.2 (E3)", "explicit-state search over every history up to the depth bound of activations/deactivations (any order), with-blocks (LIFO, normal and exceptional exit), refused activations, shielded blocks, copied contexts, generators, code that (de)activates probes from inside a call, and calls, in six worlds, replayed on the real API: every active probe receives exactly the model's events, inactive ones none; counters, installed code, handler collection, module globals and global_probes are clean whenever the model says so", "states are merged on a canonical key of the implementation state (audited in the thorough tier); error states are not expanded"),
  "C06": ("E1", "3 (C06)", "for every control-flow skeleton and generator driver sequence of the bounded space the merged meta-event stream equals the twin's explicit try/except/finally log and satisfies the bracket grammar", "GeneratorExit #error on close/drop and multi-variable loop bracket order are not asserted"),
  "C07": ("E2", "3 (C07)", "for every call tree (optionally with a raising node) and every focus-free selector, and every focused selector forced to total mode, the records delivered at each root exit equal the RSS total semantics", "records are attributed to exits by their position in the program's own activation log"),
  "C08": ("E4", "3 (C08), 2.2 (E4)", "every interleaving, up to the preemption bound, of two (three) real threads that activate their own probe on shared functions, call them and deactivate, with scheduling points at every line (critical configuration: every bytecode) of the ptera functions touching cross-thread state and library locks replaced by cooperative ones: per-thread events and results equal the sequential reference, no exception, no deadlock, clean state after join", "Python-level interleavings under the GIL inside the listed functions only; schedules are replayed deterministically (divergence = exit 2)"),
- "C09": ("E3", "3 (C09)", "explicit-state search over every history up to the depth bound of overlay enter/leave, generator create/next/close/drop and driver calls, executed at top level and inside an instrumented driver: the handlers installed for the driver always equal the entered overlays, generator-ancestor selectors never fire for driver calls, driver-ancestor selectors fire exactly once", "events caused by calls made from generator bodies are not asserted; refcounting finalisation"),
+ "C09": ("E3", "3 (C09)", "explicit-state search over every history up to the depth bound of overlay enter/leave, generator create/next/throw/close/drop (seven generator kinds) and driver calls, executed at top level and inside an instrumented driver: the handlers installed for the driver always equal the entered overlays, generator-ancestor selectors never fire for driver calls, driver-ancestor selectors fire exactly once", "events caused by calls made from generator bodies are asserted only for the kind that handles throw(); refcounting finalisation"),
  "C10": ("E1", "3 (C10)", "for every program of the bounded space and every identifier (symtable names, fresh names, #meta names) activation succeeds with the provenance Python's symtable implies, or is refused with SelectorError; plus a battery of unresolvable / non-function targets", "symtable is the scoping oracle; comprehension variables and nested-scope-only identifiers are not asserted"),
  "C11": ("E1", "3 (C11)", "for every placement of tag annotations (string and object spelling, orders, repetition) on <=3/4 sites and every tag selector, the raw stream, the instrumented set and function-tag matching equal the generator's tag map; tag-set algebra exhaustively over <=4 tags of a 4-tag alphabet", "each variable annotated at most once; string spelling only for parameters and annotated assignments"),
- "C12": ("E6", "3 (C12)", "stock predicates agree with their arithmetic definition on the whole integer box; for every call tree and every chain selector with conditions on up to 3 captures the delivered events are the unconstrained events filtered by the reference predicate, and overrides are applied on exactly those bindings", "throttle is not decided (no arithmetic meaning given)"),
- "C13": ("E6", "3 (C13)", "for every population of instances of six receiver kinds, every probed target and every call sequence up to the bounds, events are exactly the calls whose receiver is the probed object (identity), reported under the receiver parameter's name; decorated/property/dotted paths resolve; the same-named plain function is never affected", "identity of the receiver is the reference"),
+ "C12": ("E6", "3 (C12)", "stock predicates agree with their arithmetic definition on the whole integer box; for every call tree and every chain selector with conditions on up to 3 captures the delivered events are the unconstrained events filtered by the reference predicate, and overrides are applied on exactly those bindings", "throttle: only the stability of its verdict on a repeated value is decided (no arithmetic meaning given)"),
+ "C13": ("E6", "3 (C13)", "for every population of instances of nine receiver kinds, every probed target and every call sequence up to the bounds, events are exactly the calls whose receiver is the probed object (identity), reported under the receiver parameter's name; decorated/property/dotted paths resolve; the same-named plain function is never affected", "identity of the receiver is the reference"),
  "C14": ("E3", "3 (C14)", "for every placement of a function in a generated module and both registry cache modes, explicit-state search over every history up to the depth bound of activate-by-name / activate-by-reference / deactivate / call / resolve: the reference always resolves to the very function, activation by reference always succeeds, and probes by name and by reference receive the same events", "one live closure per code object; hot reload not in the alphabet; cache mode made explicit instead of timing-dependent"),
  "C15": ("E5", "3 (C15)", "every selector of the IR up to the depth/width bound, in every documented spelling and whitespace variant, compiles to one and the same object that decodes back to the IR", "the IR->structure map is the reference meaning of the notation"),
  "C16": ("E1", "3 (C16)", "for every program with bare declarations / maybe-undefined globals of the bounded space, every route and every supplied subset, the call equals the twin in which a declaration is `v = SUPPLIED[v]` or `raise NameError` (so failures are at the declaration), PteraNameError carries variable/function/annotation/provenance, and the ABSENT marker never reaches results, events or the effect log", "NameError/UnboundLocalError/PteraNameError are one family; un-instrumented functions are plain Python and outside the space"),
